@@ -12,6 +12,7 @@ from hypothesis import strategies as st
 from simkit import ctx as rctx, lifecycle as lc, oracles, seams
 from simkit.driver import digest
 from simkit.oracles import LibRaised, lib_call, fold_exact
+from simkit.rng import sync_generators
 
 PROPERTY = "C04"
 LEVEL = "exploration"
@@ -34,7 +35,7 @@ def _scenario(draw, tier):
     ops = []
     for _ in range(draw(st.integers(1, 8))):
         if kind in ("gibbs", "metropolis"):
-            k = draw(st.sampled_from(["steps", "steps", "set_bounds", "set_bounds", "nonneg_on", "nonneg_off", "remove", "bad_bounds"]))
+            k = draw(st.sampled_from(["steps", "steps", "set_bounds", "set_bounds", "nonneg_on", "nonneg_off", "remove", "bad_bounds", "restart"]))
             i = draw(st.integers(0, cfg["d"] - 1))
             if k == "steps":
                 ops.append(["advance", draw(st.sampled_from([1, 2, 5, 15]))])
@@ -43,6 +44,8 @@ def _scenario(draw, tier):
                             draw(st.sampled_from([0.0, 0.3, 0.5, 0.99, 1.0]))])
             elif k == "bad_bounds":
                 ops.append(["bad_bounds", i, draw(st.sampled_from([0.0, 0.5, 3.0, 1e4]))])
+            elif k == "restart":
+                ops.append(["restart"])
             elif k == "nonneg_on":
                 ops.append(["set_nonneg", i, True])
             elif k == "nonneg_off":
@@ -50,11 +53,13 @@ def _scenario(draw, tier):
             else:
                 ops.append(["remove_bounds", i])
         else:
-            k = draw(st.sampled_from(["steps", "steps", "steps", "probe", "revers"]))
+            k = draw(st.sampled_from(["steps", "steps", "steps", "probe", "revers", "restart"]))
             if k == "steps":
                 ops.append(["advance", draw(st.sampled_from([1, 2, 5, 12]))])
             elif k == "probe":
                 ops.append(["probe", draw(st.integers(0, 2 ** 16))])
+            elif k == "restart":
+                ops.append(["restart"])
             elif kind == "hmc":
                 ops.append(["revers", draw(st.integers(0, 2 ** 16)), draw(st.integers(1, 6))])
     return dict(cfg=cfg, ops=ops,
@@ -358,6 +363,15 @@ def execute(sc):
                     stats["limit_calls"] += 1
                     if L.nonneg[op[1]]:
                         stats["probe_remove_bounds_while_nonneg"] += 1
+                elif name == "restart":
+                    # limits given at construction / set on a parameter stay in force across save and load
+                    try:
+                        old_chain = lc.op_restart(h, "r%d" % stats["fault_crash_restart"])
+                    except LibRaised:
+                        stats["restart_failed_history_ended"] += 1
+                        break
+                    sync_generators(h.chain, old_chain)
+                    stats["fault_crash_restart"] += 1
                 elif name == "probe":
                     armed[0] = False
                     probe_bounds(V, h, L, op[1], stats)
@@ -396,6 +410,7 @@ def execute(sc):
                 del log[:]
             for log in c.post_logs.values():
                 del log[:]
+    lc.cleanup_scratch()
     for k2, v in c.stats.items():
         stats[k2] += v
     nontrivial = stats["evaluations_monitored"] > 0 and (cfg["bounds"] is not None or stats["limit_calls"] > 0)
